@@ -40,6 +40,7 @@ type Violation struct {
 	Values  []NondetRec `json:"values"`
 	Detail  string      `json:"detail,omitempty"`
 	Observe []string    `json:"observe,omitempty"`
+	Sched   []SchedStep `json:"schedule,omitempty"`
 }
 
 type PathResult struct {
@@ -268,7 +269,7 @@ func (ex *Exec) runPath(harness *ssa.Function, j *job) (res *PathResult) {
 	ex.natState = map[string]interface{}{}
 	ex.aliases = nil
 	ex.guards = nil
-	ex.threads, ex.curThread, ex.crashed, ex.crashedIn, ex.schedTrace = nil, nil, nil, "", nil
+	ex.threads, ex.curThread, ex.crashed, ex.crashedIn, ex.schedTrace, ex.schedSteps = nil, nil, nil, "", nil, nil
 	if j.model != nil {
 		ex.models = []map[string]uint64{j.model}
 	}
@@ -702,6 +703,9 @@ func (ex *Exec) reportViolation(label, detail string, m map[string]uint64) *Viol
 		v.Values = ex.nondetValues(m)
 	}
 	v.Observe = append(v.Observe, ex.observes...)
+	if len(ex.schedSteps) > 0 {
+		v.Sched = append(v.Sched, ex.schedSteps...)
+	}
 	if len(ex.schedTrace) > 0 {
 		v.Observe = append(v.Observe, "schedule:")
 		v.Observe = append(v.Observe, ex.schedTrace...)
